@@ -123,5 +123,6 @@ pub struct VersionMarker;
 
 // Kani harnesses for this (private) module live outside the repository.
 #[cfg(kani)]
-#[path = "/verif/kani/incrate/versioned.rs"]
-mod verif_kani;
+mod verif_kani {
+    include!("/verif/kani/incrate/versioned.rs");
+}
